@@ -169,7 +169,15 @@ class Engine:
         tolerant (minimisation only): a candidate the oracle cannot interpret counts as 'does not reproduce'."""
         scs = [self.refresh(sc) for sc in scs]
         self.ensure_refs(scs)
-        rs = self.pool.map(scs)
+        # scenarios that belong to another interpreter configuration (seam S7: hash seed, optimisation level) are executed in a
+        # shard interpreter started with it; their references stay those of this (baseline) interpreter
+        rs = [None] * len(scs)
+        plain = [i for i, sc in enumerate(scs) if not interp_variant(sc)]
+        for i, r in zip(plain, self.pool.map([scs[i] for i in plain])):
+            rs[i] = r
+        for i, sc in enumerate(scs):
+            if rs[i] is None:
+                rs[i] = run_in_shard([sc], interp_variant(sc))[0]
         out = []
         for sc, r in zip(scs, rs):
             if r.get("killed"):
@@ -494,6 +502,37 @@ def write_replay(engine, v, sc, seed, n):
     return path
 
 
+def interp_variant(sc):
+    b = sc.get("boot") or {}
+    v = {}
+    if b.get("hashseed") not in (None, 0, "0"):
+        v["PYTHONHASHSEED"] = str(b["hashseed"])
+    if b.get("optimize"):
+        v["PYTHONOPTIMIZE"] = str(b["optimize"])
+    return v
+
+
+def run_in_shard(scs, envvars, workers=2):
+    env = dict(os.environ)
+    env["PYTHONHASHSEED"] = "0"
+    env.update(envvars)
+    env["NSIM_WORKERS"] = str(workers)
+    sent = []
+    for sc in scs:
+        sc2 = dict(sc)
+        b = {k: v for k, v in (sc.get("boot") or {}).items() if k not in ("hashseed", "optimize")}
+        sc2.pop("boot", None)
+        if b:
+            sc2["boot"] = b
+        sent.append(sc2)
+    scs = sent
+    p = subprocess.run([sys.executable, "-c", "import sys; sys.path.insert(0, %r); from nsim import shard; shard.main()" % VERIF],
+                       input=json.dumps([resolved(sc) for sc in scs]), capture_output=True, text=True, env=env, timeout=900)
+    if p.returncode != 0:
+        raise poolmod.HarnessError(f"shard interpreter failed: {p.stderr[-1500:]}")
+    return json.loads(p.stdout)
+
+
 def replay_in_fresh_interpreter(prop, path):
     """Re-execute a replay file in a fresh interpreter; True iff it reproduces its triple."""
     env = dict(os.environ)
@@ -501,7 +540,7 @@ def replay_in_fresh_interpreter(prop, path):
     env["NSIM_WORKERS"] = "2"
     p = subprocess.run([sys.executable, os.path.join(VERIF, "check"), prop, "--replay", path],
                        capture_output=True, text=True, env=env, timeout=600)
-    return "REPRODUCED" in p.stdout, p.stdout + p.stderr
+    return any(ln.startswith("REPRODUCED ") for ln in p.stdout.split("\n")), p.stdout + p.stderr
 
 
 # ---------------------------------------------------------------------------------------
